@@ -58,6 +58,18 @@ CHECKS["C14"] = dict(
     note="Assumed contracts: rustworkx.PyDiGraph (index recycling, incident edges removed with the node, snapshot lists), id() injective among live "
          "objects only, weakref semantics, dict/list/set builtins (model containers in contracts/sgmodel.py); remove_node is reached for dead referents.",
 )
+CHECKS["C13"] = dict(
+    category="other",
+    technique="contract-based deductive verification: SymbolGraph representation invariant + loop invariant of the sweep + per-yield-site Sound/Unique/Complete obligations on get_instances_of_type (real ast, z3 over uninterpreted sorts)",
+    text="remove_dead_instances is proved (inductive invariant over the node snapshot, remove_node inlined with its own invariants) to leave "
+         "exactly the wrappers with a live referent registered, from any WF state; get_instances_of_type from a swept WF state yields "
+         "each registered instance of T or a strict subclass exactly once (sound, unique by position, complete w.r.t. the sequences "
+         "actually iterated); Symbol.__new__ registers every non-predicate instance once; let(T, None) draws from that generator. "
+         "Level 'other' because recursive_subclasses is checked shape-exhaustively on hierarchies of <= 4 classes (bounded). "
+         "Bounded stand-in: census driver over histories of create/drop/collect/clear/query on a diamond hierarchy.",
+    note="Assumptions of C14 plus type.__subclasses__ and dict.fromkeys contracts; clear() resets the universe of instances; no instance dies between "
+         "the sweep and the consumption of the generator; the cached domain on re-evaluation of one query object is C03's finding.",
+)
 NOT_APPLICABLE = {
     "C05": "decided by SQLAlchemy/SQLite semantics acting on generated code; no krrood function body carries it, so no contract within reach can express it (DESIGN.md §4)",
 }
